@@ -1569,6 +1569,7 @@ func (h *harness) roundTrips(s sgn, signed *types.Transaction, t txv, want commo
 		c.Violate("json-marshal/"+t.token(), "MarshalJSON fails", map[string]string{"tx": t.token(), "err": err.Error()})
 		return
 	}
+	c.Correspond("Transaction.MarshalJSON~json_of_tx", t.token(), jtokens(jdoc(signed)), h.m.Ask("json_of "+t.token()))
 	var fields map[string]interface{}
 	json.Unmarshal(js, &fields)
 	for name, val := range map[string]*big.Int{"nonce": new(big.Int).SetUint64(t.nonce), "gasPrice": t.price, "gas": new(big.Int).SetUint64(t.gas), "value": t.value, "v": t.v, "r": t.r, "s": t.s} {
